@@ -3,6 +3,9 @@ package main
 import (
 	"encoding/json"
 	"fmt"
+	"strconv"
+	"strings"
+	"sync"
 	"sync/atomic"
 	"time"
 
@@ -17,6 +20,8 @@ import (
 //	"events_gone"   the event stream actor itself has been stopped, then a send to an unregistered PID
 //	"sub_response"  the temporary PID of a pending Request is subscribed to the event stream, then k events
 //	"sub_self"      the event stream's own PID is subscribed to itself, then k events
+//	"concurrent_stops" 12 rounds: k actors are poisoned at the same moment by k goroutines, and when all the stop contexts
+//	                are done one message is sent to each: k dead letters per round, and no PID is registered any more
 //	"remote_dead_sub" on an engine configured with a remote: a subscriber stops without unsubscribing, then k events
 //
 // Observation: how many DeadLetterEvents a monitor saw for the probe, whether the engine came to
@@ -28,7 +33,7 @@ type corner09Case struct {
 }
 
 type corner09Obs struct {
-	Outcome string `json:"outcome"` // "ok" | "panic" | "diverged" | "blocked"
+	Outcome string `json:"outcome"` // "ok" | "panic" | "diverged" | "blocked" | "registered"
 	Dead    int    `json:"dead"`    // dead letters for the probe target seen by the monitor
 	Events  int64  `json:"events"`  // everything the monitor saw
 	Note    string `json:"note,omitempty"`
@@ -58,7 +63,7 @@ func runCorner09(raw json.RawMessage) (any, error) {
 		case actor.Initialized, actor.Started, actor.Stopped:
 		case actor.DeadLetterEvent:
 			total.Add(1)
-			if m.Target != nil && m.Target.ID == "nobody/x" {
+			if m.Target != nil && (m.Target.ID == "nobody/x" || strings.HasPrefix(m.Target.ID, "cs/")) {
 				dead.Add(1)
 			}
 		default:
@@ -118,6 +123,32 @@ func runCorner09(raw json.RawMessage) (any, error) {
 			<-e.Poison(a).Done()
 			for i := 0; i < c.K; i++ {
 				e.BroadcastEvent(cornerMsg{i})
+			}
+		case "concurrent_stops":
+			for round := 0; round < 12; round++ {
+				pids := make([]*actor.PID, c.K)
+				for i := range pids {
+					pids[i] = e.SpawnFunc(func(*actor.Context) {}, "cs", actor.WithID(strconv.Itoa(round)+"-"+strconv.Itoa(i)))
+				}
+				var wg sync.WaitGroup
+				start := make(chan struct{})
+				for _, p := range pids {
+					p := p
+					wg.Add(1)
+					go func() {
+						defer wg.Done()
+						<-start
+						<-e.Poison(p).Done()
+					}()
+				}
+				close(start)
+				wg.Wait()
+				for i, p := range pids {
+					if e.Registry.GetPID("cs", strconv.Itoa(round)+"-"+strconv.Itoa(i)) != nil {
+						obs.Outcome, obs.Note = "registered", "still registered after its stop context was done: "+p.ID
+					}
+					e.Send(p, cornerMsg{i})
+				}
 			}
 		case "sub_self":
 			e.Subscribe(es)
